@@ -327,7 +327,61 @@ func planHasSecondFileId(frame []byte) bool {
 	return n > 1
 }
 
+// c10LongChain: a chain of 70 000 small valid files (three distinct ones in turn): one File per
+// input, each equal to decoding that file alone, however long the chain.
+func c10LongChain(c *lib.Ctx) {
+	var tiny [][]byte
+	for k := uint64(0); k < 400 && len(tiny) < 3; k++ {
+		f, _ := framePool(k)
+		if len(f) > 0 && len(f) <= 120 {
+			if _, err, _ := lib.GuardedDecode(f); err == nil {
+				tiny = append(tiny, f)
+			}
+		}
+	}
+	if len(tiny) == 0 {
+		c.Count("long_chain_skipped_no_small_file", 1)
+		return
+	}
+	const n = 70000
+	var chain []byte
+	for i := 0; i < n; i++ {
+		chain = append(chain, tiny[i%len(tiny)]...)
+	}
+	c.SetInflight(chain[:256])
+	var files []*fit.File
+	var err error
+	o := lib.Guard(func() { files, err = fit.DecodeChained(bytes.NewReader(chain)) })
+	c.Eval()
+	if o.Panicked || o.Hang {
+		c.Violation(chain[:256], "DecodeChained panicked/hung on a chain of %d small valid files: %s", n, o.Panic)
+		return
+	}
+	if err != nil || len(files) != n {
+		c.Violation(chain[:256], "DecodeChained over a chain of %d small valid files returned %d files, error %v", n, len(files), err)
+		return
+	}
+	var solo []*lib.Content
+	for _, t := range tiny {
+		f, _, _ := lib.GuardedDecode(t)
+		solo = append(solo, lib.FileContent(f))
+	}
+	for i, f := range files {
+		if i%97 != 0 && i < n-300 && i > 300 && (i < 65400 || i > 65700) {
+			continue // every 97th, both ends, and the neighbourhood of 2^16
+		}
+		if diffs := lib.CompareContent(solo[i%len(tiny)], lib.FileContent(f), lib.CompareOpts{Header: true}); len(diffs) > 0 {
+			c.Violation(chain[:256], "file %d of a chain of %d decodes differently than alone: %s", i+1, n, lib.DiffsString(diffs, 3))
+			return
+		}
+	}
+	c.Count("long_chain_files", n)
+}
+
 func c10Chain(c *lib.Ctx, idx uint64) {
+	if idx == 0 {
+		c10LongChain(c)
+	}
 	rng := lib.NewRand("C10.chains", idx)
 	k := 1 + rng.Intn(5)
 	if rng.Chance(1, 6) {
